@@ -70,6 +70,10 @@ type Result struct {
 	Probes     map[string]int
 	Recorded   []simrt.Decision
 	Sample     interface{} // something printable describing the run
+	// Sets: named hash sets measured per run (e.g. "interleavings" = hash of the
+	// task-switch sequence, "states" = hashes of reached states); the batch reports
+	// the number of distinct members of each set over all runs.
+	Sets map[string][]uint64
 	// Pinned, when set on a violating result, is an equivalent workload with
 	// the failing choice made explicit (e.g. the one failing fault instant);
 	// the shrinker starts from it if it reproduces.
